@@ -69,7 +69,7 @@ FAMILIES = {
                     lambda p: (p["m"], p["c"], 0, 1 / p["lambda_"]),
                     {"m": "f0", "c": "f1", "lambda_": "fscale"}),
     "VonMises": Fam("VonMisesDistribution", "vonmises", ["kappa", "mu"],
-                    {"kappa": (0.3, 5), "mu": (-1, 1)},
+                    {"kappa": (0.3, 5), "mu": (-4.0, 7.0)},
                     lambda p: (p["kappa"], p["mu"], 1),
                     {"kappa": "f0", "mu": "floc"}),
     "LogNormalNormFit": Fam("LogNormalNormFitDistribution", "lognorm", ["mu_norm", "sigma_norm"],
